@@ -408,11 +408,11 @@ class Explorer:
         cb = self.prog.bodies.get(cdef)
         if cb is None:
             return None
-        site = self.prog.closure_sites().get(cdef)
+        cfr = self.frames[fid]
+        site = self.prog.closure_site_in(cdef, cfr.body.id)
         cap = {}
         if site is not None:
             crb, cbi, csi, ops = site
-            cfr = self.frames[fid]
             if cfr.body.id == crb.id:
                 for i, op in enumerate(ops):
                     cap[i] = self.absvals(cfr, op)
